@@ -21,6 +21,7 @@ def run(prog, rep, tier):
     f = need(prog, "sempler.lganm.LGANM.sample")
     S = Sym(prog)
     run_function(S, f)
+    model_history(rep, S, f, {"W", "means", "variances", "p"}, "HISTORY.lganm")
     rets = S.select("return", qname=f.qname)
     pop = [r for r in rets if r.value[0] == "new" and r.value[1].endswith("NormalDistribution")]
     fin = [r for r in rets if r.value[0] == "method" and r.value[2] == "sample"]
@@ -44,6 +45,7 @@ def run(prog, rep, tier):
     f2 = need(prog, ND + "sample")
     S2 = Sym(prog)
     s2, _ = run_function(S2, f2)
+    model_history(rep, S2, f2, {"mean", "covariance", "p"}, "HISTORY.normal")
     draws = [c for c in S2.select("call", qname=f2.qname) if c.callkind == "ext" and c.target in api.GLOBAL_DRAWS]
     if len(draws) != 1 or draws[0].target != "numpy.random.multivariate_normal":
         rep.bad("SLOTS.mvn", fwhere(f2), "NormalDistribution.sample must draw once with numpy.random.multivariate_normal (found %s)" % [d.target for d in draws])
